@@ -3,6 +3,7 @@ package eng
 import (
 	"fmt"
 	"go/constant"
+	"go/token"
 	"go/types"
 	"math/big"
 	"sort"
@@ -629,6 +630,54 @@ func gateDominates(c *Check, w *World, rule string, f *ssa.Function, call ssa.Ca
 	if !isRet {
 		c.Bad(rule, FuncName(f), what+"-gate", "a failing "+what+" does not lead straight to a return", w.InstrPos(gate))
 		return
+	}
+	// the failure must be reported: when the function has an error result, the failing branch returns a non-nil one
+	if res := f.Signature.Results(); res.Len() > 0 && isErrorType(res.At(res.Len()-1).Type()) {
+		r := eb.Instrs[len(eb.Instrs)-1].(*ssa.Return)
+		var nonNil func(x ssa.Value, depth int) bool
+		nonNil = func(x ssa.Value, depth int) bool {
+			if depth > 4 {
+				return false
+			}
+			if x == v {
+				return true // the tested error itself, on its != nil edge
+			}
+			switch y := x.(type) {
+			case *ssa.MakeInterface:
+				return true
+			case *ssa.Call:
+				n := CalleeName(y.Common())
+				return n == "fmt.Errorf" || n == "errors.New"
+			case *ssa.UnOp:
+				if _, isG := y.X.(*ssa.Global); isG && y.Op == token.MUL {
+					return true // a package-level error value (never written: checked by the state rules)
+				}
+				// a result cell (functions with defer spill their results): the value stored on the failing branch
+				if a, isA := y.X.(*ssa.Alloc); isA && y.Op == token.MUL {
+					var last ssa.Value
+					for _, in := range eb.Instrs {
+						if st, ok := in.(*ssa.Store); ok && st.Addr == ssa.Value(a) {
+							last = st.Val
+						}
+					}
+					if last != nil {
+						return nonNil(last, depth+1)
+					}
+				}
+			case *ssa.Phi:
+				for _, e := range y.Edges {
+					if !nonNil(e, depth+1) {
+						return false
+					}
+				}
+				return true
+			}
+			return false
+		}
+		if len(r.Results) == res.Len() && !nonNil(r.Results[res.Len()-1], 0) {
+			c.Bad(rule, FuncName(f), what+"-gate", "a failing "+what+" returns without an error: the failure is swallowed and the partial result is used", w.InstrPos(r))
+			return
+		}
 	}
 	if !allDom {
 		c.Bad(rule, FuncName(f), what+"-gate", "derivation work is reachable without passing the "+what+" check", w.InstrPos(where))
